@@ -1273,7 +1273,10 @@ impl DbInner {
 				let max_logs = if self.options.sync_data { MAX_LOG_FILES } else { KEEP_LOGS };
 				let dirty_logs = self.log.num_dirty_logs();
 				if !validation_mode {
-					while self.log.num_dirty_logs() > max_logs {
+					// Nobody cleans logs once shutdown has begun, `kill_logs` cleans them all at the end.
+					while self.log.num_dirty_logs() > max_logs &&
+						!self.shutdown.load(Ordering::SeqCst)
+					{
 						log::debug!(target: "parity-db", "Waiting for log cleanup. Queued: {}", dirty_logs);
 						self.cleanup_queue_wait.wait();
 					}
@@ -1340,6 +1343,7 @@ impl DbInner {
 		self.log_worker_wait.signal();
 		self.commit_worker_wait.signal();
 		self.cleanup_worker_wait.signal();
+		self.cleanup_queue_wait.signal();
 	}
 
 	fn kill_logs(&self, db: &Arc<DbInner>) -> Result<()> {
